@@ -6,6 +6,7 @@ import hops_oracles as O
 from props import c14 as C14
 from props import c08 as C08
 from props import c09 as C09
+from props import c12 as C12
 ID = "C07"
 MANIFEST = {
     "text": ("Kernel-checked theorems about the model of lending_pool_handle_bankruptcy and Bank::socialize_loss, for every world, "
@@ -310,6 +311,42 @@ def mangle(rng, line):
     return " ".join(out)
 
 
+
+PERMISSIONLESS_FLAG = 4
+
+
+def privileged_flag_suite(rng, n):
+    """'anyone only if the bank opted in': the opt-in is the bank flag PERMISSIONLESS_BAD_DEBT_SETTLEMENT, which only the group
+    admin's configure_bank may set. C12's generator of delegated-administrator instructions (emissions set-up / update with
+    every kind of flag word, interest-only, limits-only, e-mode, oracle, metadata ...) through the real entry point: the bit
+    may change only in a configure_bank signed by the admin"""
+    lines = []
+    while len(lines) < n:
+        l = C12.gen_priv_case(rng)
+        if " ESET " in f" {l} " or " EUPD " in f" {l} ":
+            lines.append(l)
+    return {"suite": "privsim", "name": "permissionless-opt-in-only-by-the-admin", "lines": lines,
+            "distribution": {"cases": n, "note": "privsim cases containing an emissions set-up or update"}}
+
+
+def oracle_optin_priv(case, impl):
+    parts = impl.split(" | ")
+    steps = C12.parse_priv_steps(case)
+    if len(parts) != 2 + len(steps):
+        return None
+    flags = {0: int(parts[0].split()[C12.FLAGS_AT]), 1: int(parts[1].split()[C12.FLAGS_AT])}
+    for st, outp in zip(steps, parts[2:]):
+        status, j, dump, dn, an = C12.parse_step_out(outp)
+        if status != "OK" or dump is None:
+            continue
+        before, after = flags[j], int(dump[C12.FLAGS_AT])
+        flags[j] = after
+        if (before ^ after) & PERMISSIONLESS_FLAG and st[0] != "CFG":
+            return {"key": "permissionless-settlement-switched-by-non-admin-instruction",
+                    "what": f"{st[0]} on bank {j} changed the PERMISSIONLESS_BAD_DEBT_SETTLEMENT flag (flags {before:#x} -> {after:#x}): "
+                            "after that anybody may / may no longer settle the bank's bad debt although the admin never configured it"}
+    return None
+
 def suites(rng, tier):
     n = {"quick": 1800, "thorough": 22000, "search": 6000}[tier]
     m = {"quick": 500, "thorough": 6000, "search": 1500}[tier]
@@ -329,6 +366,7 @@ def suites(rng, tier):
             {"suite": "oraclerisk", "name": "bankruptcy-assessment-with-bad-oracles",
              "lines": [C09.gen_risk_case(rng, "valid" if rng.random() < 0.5 else "malformed", {}) for _ in range({"quick": 500, "thorough": 8000, "search": 3000}[tier])],
              "distribution": {"note": "the Equity valuation behind check_account_bankrupt (real RiskEngine) on positions whose oracle is stale, foreign, wrongly owned or too uncertain: the assessment must FAIL, never count the collateral as worth nothing (C09's generator; only the Equity verdicts are judged here)"}},
+            privileged_flag_suite(rng, {"quick": 900, "thorough": 12000, "search": 4000}[tier]),
             {"suite": "auth", "name": "who-may-settle-bad-debt",
              "lines": [l for l in C08.matrix() if C08.kvs(l)["ix"] == "lending_pool_handle_bankruptcy"],
              "distribution": {"note": "the authorization-matrix cells of lending_pool_handle_bankruptcy (every signer role, permissionless flag on / off, every single account substitution) through the real entry point"}}]
@@ -366,6 +404,8 @@ def optin_suite(rng, n):
 
 
 def nontrivial(suite, case, impl):
+    if suite == "privsim":
+        return C12.nontrivial(suite, case, impl)
     if suite == "cfgsim":
         return C14.nontrivial(suite, case, impl)
     if suite == "auth":
@@ -411,6 +451,8 @@ def slot_of(acct, b):
 
 
 def oracle(suite, case, impl):
+    if suite == "privsim":
+        return oracle_optin_priv(case, impl)
     if suite == "auth":
         return C08.oracle(suite, case, impl)
     if suite == "oraclerisk":
